@@ -163,6 +163,9 @@ class ResponseEncoder:
         # of the requested charsets (in order of user preference).
         encs = request.headers.elements('Accept-Charset')
         charsets = [enc.value.lower() for enc in encs]
+        # A qvalue of 0 means "not acceptable" (RFC 7231, section 5.3.3).
+        accepted = [enc.value.lower() for enc in encs if enc.qvalue > 0]
+        refused = [enc.value.lower() for enc in encs if enc.qvalue == 0]
         if self.debug:
             cherrypy.log('charsets %s' % repr(charsets), 'TOOLS.ENCODE')
 
@@ -172,7 +175,8 @@ class ResponseEncoder:
             if self.debug:
                 cherrypy.log('Specified encoding %r' %
                              encoding, 'TOOLS.ENCODE')
-            if (not charsets) or '*' in charsets or encoding in charsets:
+            if ((not charsets) or encoding in accepted
+                    or ('*' in accepted and encoding not in refused)):
                 if self.debug:
                     cherrypy.log('Attempting encoding %r' %
                                  encoding, 'TOOLS.ENCODE')
@@ -193,7 +197,10 @@ class ResponseEncoder:
                 for element in encs:
                     if element.qvalue > 0:
                         if element.value == '*':
-                            # Matches any charset. Try our default.
+                            # Matches any charset not mentioned elsewhere.
+                            # Try our default unless it is refused.
+                            if self.default_encoding.lower() in refused:
+                                continue
                             if self.debug:
                                 cherrypy.log('Attempting default encoding due '
                                              'to %r' % element, 'TOOLS.ENCODE')
